@@ -28,6 +28,18 @@ Reading guide
   the drawdown in progress to the mean / max generators of every entry — stated exactly
   (`interleaved_generate_exact`) with the witness (100, 90, generate, 110).
 * §6 projections onto the C16 model commute.
+* §7 where the code panics (unknown key, zero-cost exit): `summary_panics_iff`, `exec_panics_iff`, and
+  what the summary is when the code reports one (`summary_checked_full`, `direct_summary_checked_full`) —
+  §1–§6 are statements about the TOTAL model functions, which ignore such events.
+* §8 asset curves whose first total is not positive (outside C18's documented domain).
+
+What "engine path" means in the theorems: the events are `Ev.position i p` — an already computed
+`PositionExited` of instrument `i` — and `Ev.balance a s`. The steps before that (fills → `Position` →
+`PositionExited`, the routing inside `Engine::process` / `EngineState::update_from_account`) are NOT in these
+theorems: the drivers' parser turns `rt` / `flip` ops into exits with the C02 position model
+(`Driver/C16K.lean` `rtExits` / `flipExits`, shared by model and spec mode), and the real `Engine::process`
+is on the harness side only. That part is tied by correspondence (the `closed …` lines are impl-vs-model
+only), with C02 / C16 for the position arithmetic.
 -/
 namespace BarterModel.Props.C16K
 open BarterModel BarterModel.KeyedSummary
@@ -37,7 +49,9 @@ open BarterModel BarterModel.KeyedSummary
 /-- **`summary_instrument_full`.** For every `n`, `m` and every event history: the summary returned by
 `Engine::trading_summary_generator(rf).generate(iv)` has exactly `n` instrument entries, and entry
 `i < n` is C16M's full sheet (`TearSheetGenerator::init(t0)`, one `update_from_position` per element,
-then `generate(rf, iv)`) of exactly the closed positions of instrument `i`, in order: all ten fields. -/
+then `generate(rf, iv)`) of exactly the closed positions of instrument `i`, in order: all ten fields.
+(Of the total function `engineSummary`: events with `i ≥ n` are ignored by it and make the code panic —
+`summary_panics_iff`; guarded form `summary_checked_full`, §7.) -/
 theorem summary_instrument_full (f : Rat → Rat) (t0 : Int) (n m : Nat) (rf : Rat) (start now : Int)
     (iv : Interval) (evs : List Ev) :
     (engineSummary f t0 n m rf start now iv evs).instruments.length = n ∧
@@ -223,7 +237,9 @@ theorem clock_is_running_max (evs : List Ev) (t0 : Int) :
     (evs.foldl clockStep t0 = t0 ∨ ∃ ev ∈ evs, evs.foldl clockStep t0 = ev.time) :=
   clock_fold evs t0
 
-/-- Both paths report the same instrument entries. -/
+/-- Both paths report the same instrument entries. (Bookkeeping: a corollary of `summary_instrument_full`
+and `direct_summary_instrument_full` — in the model the two paths run the same fold over the same
+`PositionExited` events; the paths differ in the code BEFORE that point, which is correspondence only.) -/
 theorem engine_direct_instruments_agree (f : Rat → Rat) (t0 : Int) (n m : Nat) (rf : Rat)
     (start now : Int) (iv : Interval) (evs : List Ev) :
     (engineSummary f t0 n m rf start now iv evs).instruments =
@@ -354,7 +370,10 @@ theorem direct_frame (f : Rat → Rat) (t0 : Int) (n m : Nat) (rf : Rat) (iv : I
 
 /-- **Engine path: `generate` is read-only.** `Engine::trading_summary_generator(&self)` clones; whatever
 summaries were requested in between, the engine state is the one reached by the events alone, and a
-summary requested after `ops` is `engineSummary` of the events in `ops` — earlier requests are invisible. -/
+summary requested after `ops` is `engineSummary` of the events in `ops` — earlier requests are invisible.
+(Bookkeeping: true by construction of `EngState.exec`, whose `.gen` case passes the state on unchanged —
+the definition transcribes `trading_summary_generator(&self)`; that the real engine state is not touched is
+what the correspondence checks, e.g. the fixed vector with the request between 90 and 110 on the engine path.) -/
 theorem engine_generate_read_only (f : Rat → Rat) (t0 : Int) (n m : Nat) (rf : Rat) (start now : Int)
     (iv : Interval) (ops : List Op) :
     (EngState.exec f rf start now (EngState.init t0 n m) ops).1 =
@@ -669,6 +688,249 @@ theorem projection_commutes_direct (f : Rat → Rat) (t0 : Int) (n m : Nat) (rf 
     · rw [List.getElem?_map, h1.2 a ha, h2.2 a ha, balancesOf_projEv]
       rfl
     · rw [List.getElem?_eq_none (by simp; omega), List.getElem?_eq_none (by omega)]
+
+/-! ## 7. Where the code panics: the checked summaries
+
+`engineSummary` / `directSummary` / the `exec` functions (§1–§5) are total: an event whose key is outside
+the maps is ignored (`modifyAt`), a zero-cost exit goes on with `pnl / 0 = 0`. The code panics on both
+(`instrument_index_mut` / `asset_index_mut`, `instrument_mut` / `asset_mut`: "Panics if … does not exist";
+`calculate_pnl_return`). The theorems above are true of the total functions for every history, but on
+such a history they do not describe anything the code reports. `engineSummaryChecked`,
+`directSummaryChecked`, `EngState.execChecked`, `SummaryGen.execChecked` (`Model/KeyedSummary.lean`) carry
+the panic as an explicit outcome (`none`) and are what the drivers run. -/
+
+/-- **When a single event makes the code panic**: a position for an instrument index ≥ n, or with a
+zero cost of investment; a balance for an asset index ≥ m. -/
+theorem ev_panics_iff (n m : Nat) (ev : Ev) :
+    ev.panics n m = true ↔
+      match ev with
+      | .position i p => n ≤ i ∨ C16M.costOf p = 0
+      | .balance a _ => m ≤ a :=
+  Ev.panics_iff n m ev
+
+/-- The checked summaries are the unchecked ones guarded by "no event of the history panics". -/
+theorem summary_checked_eq (f : Rat → Rat) (t0 : Int) (n m : Nat) (rf : Rat) (start now : Int)
+    (iv : Interval) (evs : List Ev) :
+    engineSummaryChecked f t0 n m rf start now iv evs =
+      (if evs.any (Ev.panics n m) then none else some (engineSummary f t0 n m rf start now iv evs)) ∧
+    directSummaryChecked f t0 n m rf iv evs =
+      (if evs.any (Ev.panics n m) then none else some (directSummary f t0 n m rf iv evs)) := by
+  constructor
+  · rw [engineSummaryChecked, EngState.runChecked_eq]
+    simp only [EngState.init, List.length_replicate]
+    split <;> rfl
+  · rw [directSummaryChecked, SummaryGen.runChecked_eq]
+    simp only [SummaryGen.init, EngState.init, List.length_replicate, List.length_map]
+    split <;> rfl
+
+/-- **Exactly when the code panics** (either path): some event of the history names an instrument /
+asset the engine was not built with, or closes a position with a zero cost of investment. -/
+theorem summary_panics_iff (f : Rat → Rat) (t0 : Int) (n m : Nat) (rf : Rat) (start now : Int)
+    (iv : Interval) (evs : List Ev) :
+    (engineSummaryChecked f t0 n m rf start now iv evs = none ↔ ∃ ev ∈ evs, ev.panics n m = true) ∧
+    (directSummaryChecked f t0 n m rf iv evs = none ↔ ∃ ev ∈ evs, ev.panics n m = true) := by
+  obtain ⟨e1, e2⟩ := summary_checked_eq f t0 n m rf start now iv evs
+  rw [e1, e2]
+  by_cases h : evs.any (Ev.panics n m) = true
+  · rw [if_pos h, if_pos h]
+    have := List.any_eq_true.mp h
+    exact ⟨⟨fun _ => this, fun _ => rfl⟩, ⟨fun _ => this, fun _ => rfl⟩⟩
+  · rw [if_neg h, if_neg h]
+    have hn : ¬ ∃ ev ∈ evs, ev.panics n m = true := fun hx => h (List.any_eq_true.mpr hx)
+    exact ⟨⟨fun h' => (by cases h'), fun hx => absurd hx hn⟩,
+      ⟨fun h' => (by cases h'), fun hx => absurd hx hn⟩⟩
+
+/-- The same with interleaved summary requests (what the model driver folds): a request never panics;
+without a panicking event the checked functions are the unchecked ones. -/
+theorem exec_panics_iff (f : Rat → Rat) (t0 : Int) (n m : Nat) (rf : Rat) (start now : Int)
+    (ops : List Op) :
+    (EngState.execChecked f rf start now (EngState.init t0 n m) ops = none ↔
+      ∃ ev ∈ eventsOf ops, ev.panics n m = true) ∧
+    (SummaryGen.execChecked f (SummaryGen.init rf t0 t0 (EngState.init t0 n m)) ops = none ↔
+      ∃ ev ∈ eventsOf ops, ev.panics n m = true) ∧
+    (∀ r, EngState.execChecked f rf start now (EngState.init t0 n m) ops = some r →
+      r = EngState.exec f rf start now (EngState.init t0 n m) ops) ∧
+    (∀ r, SummaryGen.execChecked f (SummaryGen.init rf t0 t0 (EngState.init t0 n m)) ops = some r →
+      r = SummaryGen.exec f (SummaryGen.init rf t0 t0 (EngState.init t0 n m)) ops) := by
+  have e1 := EngState.execChecked_eq f rf start now ops (EngState.init t0 n m)
+  have e2 := SummaryGen.execChecked_eq f ops (SummaryGen.init rf t0 t0 (EngState.init t0 n m))
+  simp only [SummaryGen.init, EngState.init, List.length_replicate, List.length_map] at e1 e2
+  simp only [SummaryGen.init, EngState.init]
+  rw [e1, e2]
+  by_cases h : (eventsOf ops).any (Ev.panics n m) = true
+  · rw [if_pos h, if_pos h]
+    have := List.any_eq_true.mp h
+    exact ⟨⟨fun _ => this, fun _ => rfl⟩, ⟨fun _ => this, fun _ => rfl⟩,
+      fun r hr => (by cases hr), fun r hr => (by cases hr)⟩
+  · rw [if_neg h, if_neg h]
+    have hn : ¬ ∃ ev ∈ eventsOf ops, ev.panics n m = true := fun hx => h (List.any_eq_true.mpr hx)
+    exact ⟨⟨fun h' => (by cases h'), fun hx => absurd hx hn⟩,
+      ⟨fun h' => (by cases h'), fun hx => absurd hx hn⟩,
+      fun r hr => (by cases hr; rfl), fun r hr => (by cases hr; rfl)⟩
+
+/-- **What the code reports, when it reports (engine path).** If the checked function returns a summary
+then (a) every event of the history named a key in range and every exit had a non-zero cost, so every
+event of the history has reached exactly the entry of its key (no event is dropped: each position of
+instrument `i` is in `exitsOf i`, each snapshot of asset `a` in `snapsOf a`); (b) the summary is the one §1
+and §2 speak about: exactly `n` instrument entries, entry `i` the CHECKED C16M sheet of `i`'s exits (which
+did not panic), exactly `m` asset entries, entry `a` the asset sheet over the non-stale subsequence. -/
+theorem summary_checked_full (f : Rat → Rat) (t0 : Int) (n m : Nat) (rf : Rat) (start now : Int)
+    (iv : Interval) (evs : List Ev) (s : Summary)
+    (h : engineSummaryChecked f t0 n m rf start now iv evs = some s) :
+    (∀ i p, Ev.position i p ∈ evs → i < n ∧ C16M.costOf p ≠ 0 ∧ p ∈ exitsOf i evs) ∧
+    (∀ a b, Ev.balance a b ∈ evs → a < m ∧ b ∈ snapsOf a evs) ∧
+    s = engineSummary f t0 n m rf start now iv evs ∧
+    s.instruments.length = n ∧
+    (∀ i, i < n → (s.instruments[i]?).join = C16M.sheetChecked f t0 (exitsOf i evs) rf iv ∧
+      (s.instruments[i]?).isSome) ∧
+    s.assets.length = m ∧
+    (∀ a, a < m → s.assets[a]? = some (assetSheetOf (nonStale none (snapsOf a evs)))) := by
+  have hnone : ¬ engineSummaryChecked f t0 n m rf start now iv evs = none := by rw [h]; simp
+  rw [(summary_panics_iff f t0 n m rf start now iv evs).1] at hnone
+  have hev : ∀ ev ∈ evs, ¬ ev.panics n m = true := fun ev hev hp => hnone ⟨ev, hev, hp⟩
+  have hany : ¬ evs.any (Ev.panics n m) = true := fun hx => hnone (List.any_eq_true.mp hx)
+  rw [(summary_checked_eq f t0 n m rf start now iv evs).1, if_neg hany] at h
+  simp only [Option.some.injEq] at h
+  subst h
+  obtain ⟨i1, i2⟩ := summary_instrument_full f t0 n m rf start now iv evs
+  obtain ⟨a1, a2⟩ := summary_asset_full f t0 n m rf start now iv evs
+  have hpos : ∀ i p, Ev.position i p ∈ evs → i < n ∧ C16M.costOf p ≠ 0 ∧ p ∈ exitsOf i evs := by
+    intro i p hp
+    have := hev _ hp
+    rw [ev_panics_iff] at this
+    simp only [not_or, Nat.not_le] at this
+    exact ⟨this.1, this.2, mem_exitsOf i p evs hp⟩
+  refine ⟨hpos, ?_, rfl, i1, ?_, a1, a2⟩
+  · intro a b hb
+    have := hev _ hb
+    rw [ev_panics_iff] at this
+    simp only [Nat.not_le] at this
+    exact ⟨this, mem_snapsOf a b evs hb⟩
+  · intro i hi
+    rw [i2 i hi]
+    refine ⟨?_, rfl⟩
+    have hno : ¬ (exitsOf i evs).any Metrics.Exit.panics = true := by
+      intro hx
+      obtain ⟨p, hp, hh⟩ := List.any_eq_true.mp hx
+      exact (hpos i p (exitsOf_mem i p evs hp)).2.1 ((Metrics.Exit.panics_iff p).mp hh)
+    rw [C16M.sheetChecked_eq, if_neg hno]; rfl
+
+/-- Direct path likewise (asset entries over ALL snapshots). -/
+theorem direct_summary_checked_full (f : Rat → Rat) (t0 : Int) (n m : Nat) (rf : Rat)
+    (iv : Interval) (evs : List Ev) (s : Summary)
+    (h : directSummaryChecked f t0 n m rf iv evs = some s) :
+    (∀ i p, Ev.position i p ∈ evs → i < n ∧ C16M.costOf p ≠ 0 ∧ p ∈ exitsOf i evs) ∧
+    (∀ a b, Ev.balance a b ∈ evs → a < m ∧ b ∈ snapsOf a evs) ∧
+    s = directSummary f t0 n m rf iv evs ∧
+    s.instruments.length = n ∧
+    (∀ i, i < n → (s.instruments[i]?).join = C16M.sheetChecked f t0 (exitsOf i evs) rf iv ∧
+      (s.instruments[i]?).isSome) ∧
+    s.assets.length = m ∧
+    (∀ a, a < m → s.assets[a]? = some (assetSheetOf (snapsOf a evs))) := by
+  have hnone : ¬ directSummaryChecked f t0 n m rf iv evs = none := by rw [h]; simp
+  rw [(summary_panics_iff f t0 n m rf 0 0 iv evs).2] at hnone
+  have hev : ∀ ev ∈ evs, ¬ ev.panics n m = true := fun ev hev hp => hnone ⟨ev, hev, hp⟩
+  have hany : ¬ evs.any (Ev.panics n m) = true := fun hx => hnone (List.any_eq_true.mp hx)
+  rw [(summary_checked_eq f t0 n m rf 0 0 iv evs).2, if_neg hany] at h
+  simp only [Option.some.injEq] at h
+  subst h
+  obtain ⟨i1, i2⟩ := direct_summary_instrument_full f t0 n m rf iv evs
+  obtain ⟨a1, a2⟩ := direct_summary_asset_full f t0 n m rf iv evs
+  have hpos : ∀ i p, Ev.position i p ∈ evs → i < n ∧ C16M.costOf p ≠ 0 ∧ p ∈ exitsOf i evs := by
+    intro i p hp
+    have := hev _ hp
+    rw [ev_panics_iff] at this
+    simp only [not_or, Nat.not_le] at this
+    exact ⟨this.1, this.2, mem_exitsOf i p evs hp⟩
+  refine ⟨hpos, ?_, rfl, i1, ?_, a1, a2⟩
+  · intro a b hb
+    have := hev _ hb
+    rw [ev_panics_iff] at this
+    simp only [Nat.not_le] at this
+    exact ⟨this, mem_snapsOf a b evs hb⟩
+  · intro i hi
+    rw [i2 i hi]
+    refine ⟨?_, rfl⟩
+    have hno : ¬ (exitsOf i evs).any Metrics.Exit.panics = true := by
+      intro hx
+      obtain ⟨p, hp, hh⟩ := List.any_eq_true.mp hx
+      exact (hpos i p (exitsOf_mem i p evs hp)).2.1 ((Metrics.Exit.panics_iff p).mp hh)
+    rw [C16M.sheetChecked_eq, if_neg hno]; rfl
+
+/-- **Witness at the excluded points: unknown keys.** One instrument, one asset; a balance for asset 7
+and an exit for instrument 3. The total model ignores both events (the summary is that of the empty
+history) where the code panics (`init 1 2 engine 0; bal 2 10 5 5` and direct `pos 1 …`: the harness
+prints `panic`, `…-does-not-contain-…index`); the checked functions say so. -/
+theorem out_of_range_key_model_ignores (f : Rat → Rat) (rf : Rat) (start now : Int) (iv : Interval) :
+    let evs : List Ev := [.balance 7 ⟨5, ⟨100, 100⟩⟩, .position 3 ⟨1000, ⟨5, 100, 1⟩⟩]
+    engineSummary f 0 1 1 rf start now iv evs = engineSummary f 0 1 1 rf start now iv [] ∧
+    directSummary f 0 1 1 rf iv evs =
+      { directSummary f 0 1 1 rf iv [] with timeEngineEnd := 1000 } ∧
+    engineSummaryChecked f 0 1 1 rf start now iv evs = none ∧
+    directSummaryChecked f 0 1 1 rf iv evs = none := by
+  refine ⟨rfl, rfl, ?_, ?_⟩
+  · rw [(summary_panics_iff f 0 1 1 rf start now iv _).1]
+    exact ⟨Ev.balance 7 ⟨5, ⟨100, 100⟩⟩, by simp, by decide⟩
+  · rw [(summary_panics_iff f 0 1 1 rf start now iv _).2]
+    exact ⟨Ev.balance 7 ⟨5, ⟨100, 100⟩⟩, by simp, by decide⟩
+
+/-- **Witness at the excluded points: zero cost.** The keyed total model reports a win rate of 1 for an
+instrument whose only exit has an average entry price of 0 — the code panics (division by zero). -/
+theorem zero_cost_exit_keyed_model_continues (f : Rat → Rat) (rf : Rat) (start now : Int)
+    (iv : Interval) :
+    (engineSummary f 0 1 1 rf start now iv [.position 0 C16M.zeroCostExit]).instruments.map (·.winRate) =
+      [some 1] ∧
+    engineSummaryChecked f 0 1 1 rf start now iv [.position 0 C16M.zeroCostExit] = none ∧
+    directSummaryChecked f 0 1 1 rf iv [.position 0 C16M.zeroCostExit] = none := by
+  obtain ⟨l, e⟩ := summary_instrument_full f 0 1 1 rf start now iv [.position 0 C16M.zeroCostExit]
+  refine ⟨?_, ?_, ?_⟩
+  · have h0 := e 0 (by omega)
+    have hx : exitsOf 0 [Ev.position 0 C16M.zeroCostExit] = [C16M.zeroCostExit] := by decide
+    rw [hx] at h0
+    rw [singleton_of l h0]
+    simp [(C16M.zero_cost_exit_model_continues f 0 rf iv).2.1]
+  · rw [(summary_panics_iff f 0 1 1 rf start now iv _).1]
+    exact ⟨Ev.position 0 C16M.zeroCostExit, by simp, by decide +kernel⟩
+  · rw [(summary_panics_iff f 0 1 1 rf start now iv _).2]
+    exact ⟨Ev.position 0 C16M.zeroCostExit, by simp, by decide +kernel⟩
+
+/-! ## 8. Asset curves whose first total is not positive
+
+C18 documents drawdowns for curves with positive peaks (`Drawdown.PositivePeaks`: the first value is
+positive). Nothing guarantees that for an asset: a balance can start at 0 (or be negative on a margin
+account). The oracle (spec driver) is SILENT on the drawdown fields of such an asset; the model mirrors
+the code and is compared on them; what both report is stated here. -/
+
+/-- A first total that is not positive is never the start of a drawdown: the drawdown fields of the asset
+sheet are those of the history from the first snapshot whose total exceeds it. -/
+theorem asset_nonpositive_first_total (s : BalSnap) (ss : List BalSnap) (h : s.balance.total ≤ 0) :
+    Drawdown.decompose (curveOf (s :: ss)) =
+      Drawdown.decompose ((curveOf ss).dropWhile (fun q => decide (q.v ≤ s.balance.total))) :=
+  decompose_skip_nonpos_peak (pointOf s) (curveOf ss) h
+
+/-- the reviewer's history: totals 0, −5, 10, 5 at t = 0, 10, 20, 30 -/
+def zeroPeakHistory : List Ev :=
+  [.balance 0 ⟨0, ⟨0, 0⟩⟩, .balance 0 ⟨10, ⟨-5, -5⟩⟩, .balance 0 ⟨20, ⟨10, 10⟩⟩, .balance 0 ⟨30, ⟨5, 5⟩⟩]
+
+/-- **Witness** (corpus/C16K `k-zero-peak-engine` / `-direct`; generator class `zero-peak`): the curve is
+outside C18's precondition, the spec driver prints `a0.bal` only, model and code report a 50 % drawdown
+in progress since t = 20 — measured from the first POSITIVE peak (10), the non-positive start contributes
+nothing. Both paths. -/
+theorem asset_zero_peak_witness (f : Rat → Rat) (rf : Rat) (start now : Int) (iv : Interval) :
+    ¬ Drawdown.PositivePeaks (curveOf (snapsOf 0 zeroPeakHistory)) ∧
+    (engineSummary f 0 0 1 rf start now iv zeroPeakHistory).assets =
+      [⟨some ⟨5, 5⟩, ⟨some ⟨1 / 2, 20, 30⟩, some ⟨1 / 2, 10⟩, some ⟨1 / 2, 20, 30⟩⟩⟩] ∧
+    (directSummary f 0 0 1 rf iv zeroPeakHistory).assets =
+      [⟨some ⟨5, 5⟩, ⟨some ⟨1 / 2, 20, 30⟩, some ⟨1 / 2, 10⟩, some ⟨1 / 2, 20, 30⟩⟩⟩] := by
+  obtain ⟨e1, e2⟩ := summary_asset_full f 0 0 1 rf start now iv zeroPeakHistory
+  obtain ⟨d1, d2⟩ := direct_summary_asset_full f 0 0 1 rf iv zeroPeakHistory
+  refine ⟨by decide +kernel, ?_, ?_⟩
+  · refine singleton_of e1 ?_
+    rw [e2 0 (by omega)]
+    exact congrArg some (by decide +kernel)
+  · refine singleton_of d1 ?_
+    rw [d2 0 (by omega)]
+    exact congrArg some (by decide +kernel)
 
 /-! ## Non-vacuity -/
 
